@@ -105,10 +105,14 @@ func (s *MemCachedStore) Get(key []byte) ([]byte, error) {
 	return s.ps.Get(key)
 }
 
-// Put puts new KV pair into the store.
+// Put puts new KV pair into the store. A nil value is stored as an empty one
+// (nil is what marks deleted keys internally, use Delete to remove a key).
 func (s *MemCachedStore) Put(key, value []byte) {
 	newKey := string(key)
 	vcopy := bytes.Clone(value)
+	if vcopy == nil {
+		vcopy = []byte{}
+	}
 	s.lock()
 	put(s.chooseMap(key), newKey, vcopy)
 	s.unlock()
